@@ -52,10 +52,15 @@ func init() {
 		return TupleV{dir, file}, true
 	}
 	libModels["filepath.Join"] = func(x *Exec, st *State, e *ast.CallExpr, a []Value, _ []types.Type) (Value, bool) {
-		if len(a) != 2 || e.Ellipsis.IsValid() {
+		if len(a) < 2 || e.Ellipsis.IsValid() {
 			return nil, false
 		}
-		return x.uf("pathJoin2", SStr, asTerm(a[0]), asTerm(a[1])), true
+		// Join(a, b, c) == Join(Join(a, b), c): left-nested binary joins
+		t := asTerm(a[0])
+		for _, b := range a[1:] {
+			t = x.uf("pathJoin2", SStr, t, asTerm(b))
+		}
+		return t, true
 	}
 	libModels["fs.Stat"] = func(x *Exec, st *State, e *ast.CallExpr, a []Value, _ []types.Type) (Value, bool) {
 		// the file system is a fixed function of (fs, path) during the call: isDirAt(fs, path)
@@ -63,10 +68,28 @@ func init() {
 		err := x.fresh("staterr", SInt)
 		x.noteAssume("fs.Stat: the file system does not change during the unit; err == nil && fi.IsDir() iff isDirAt(fs, path)")
 		st.assume("(= (and (= " + err.S + " 0) (fiIsDir " + fi.S + ")) (isDirAt " + tstr(a[0]) + " " + tstr(a[1]) + "))")
+		st.assume("(= (= " + err.S + " 0) (existsAt " + tstr(a[0]) + " " + tstr(a[1]) + "))")
 		return TupleV{fi, err}, true
 	}
 	libModels["fs.FileInfo.IsDir"] = func(x *Exec, st *State, e *ast.CallExpr, a []Value, _ []types.Type) (Value, bool) {
 		return Term{"(fiIsDir " + tstr(a[0]) + ")", SBool}, true
+	}
+	// os.Expand(s, mapping): uninterpreted in the string and the mapping function (what matters is WHICH
+	// mapping is used); os.ExpandEnv / os.Getenv / os.LookupEnv / os.Environ read the host environment
+	libModels["os.Expand"] = func(x *Exec, st *State, e *ast.CallExpr, a []Value, _ []types.Type) (Value, bool) {
+		fn := a[1]
+		var ft Term
+		if t, ok := fn.(Term); ok {
+			ft = t
+		} else if fv, ok := fn.(*FuncV); ok && fv.Lit != nil {
+			ft = Term{fmt.Sprintf("(closureAt %d)", x.L.Fset.Position(fv.Lit.Pos()).Line), SInt}
+		} else {
+			return nil, false
+		}
+		return x.uf("osExpandOp", SStr, asTerm(a[0]), ft), true
+	}
+	libModels["os.ExpandEnv"] = func(x *Exec, st *State, e *ast.CallExpr, a []Value, _ []types.Type) (Value, bool) {
+		return x.uf("osExpandOp", SStr, asTerm(a[0]), Term{"hostGetenv", SInt}), true
 	}
 	libModels["errors.Is"] = func(x *Exec, st *State, e *ast.CallExpr, a []Value, _ []types.Type) (Value, bool) {
 		return x.uf("lib_errors.Is", SBool, asTerm(a[0]), asTerm(a[1])), true
@@ -844,6 +867,21 @@ func (x *Exec) applyContract(c *Contract, f *types.Func, e *ast.CallExpr, args [
 	x.contract = true
 	x.conScope = map[string]types.Object{}
 	calleeUnit := calleeName(f)
+	shadowed := map[string]Value{}
+	for _, n := range append(append([]string{}, c.Params...), c.Results...) {
+		for _, k := range []string{n, "$type:" + n} {
+			if v, ok := st.names[k]; ok {
+				shadowed[k] = v
+			}
+		}
+	}
+	for _, l := range c.Lets {
+		for _, k := range []string{l.Label, "$type:" + l.Label} {
+			if v, ok := st.names[k]; ok {
+				shadowed[k] = v
+			}
+		}
+	}
 	bind(st)
 	for _, l := range c.Lets {
 		v, t := x.eval(l.Expr, st)
@@ -1061,13 +1099,18 @@ func (x *Exec) applyContract(c *Contract, f *types.Func, e *ast.CallExpr, args [
 	if c.Trusted {
 		x.noteAssume("trusted contract: " + c.Pkg + "." + c.Key)
 	}
-	// clean names
+	// clean names: what the callee's contract bound goes away, what it shadowed (the caller's own
+	// contract names, e.g. at a recursive call) comes back
 	for _, n := range append(append([]string{}, c.Params...), c.Results...) {
 		delete(st.names, n)
 		delete(st.names, "$type:"+n)
 	}
 	for _, l := range c.Lets {
 		delete(st.names, l.Label)
+		delete(st.names, "$type:"+l.Label)
+	}
+	for k, v := range shadowed {
+		st.names[k] = v
 	}
 	if len(res) == 1 {
 		return res[0]
